@@ -123,7 +123,7 @@ def _roundtrip(lang_l, cap_l, node_a, node_b, pools=((0, 1, 5), (0, 3, 2), (0, 1
 
 # --- WebVTT cue settings ------------------------------------------------------------------------------------
 XS = (Fraction(0), Fraction(10), Fraction(25, 2), Fraction(3333, 100))
-PADS = (None, Fraction(5, 4), Fraction(5))
+PADS = (None, Fraction(3, 4), Fraction(5))   # 0.75: two decimals and below 1 (printed with its leading zero)
 WS = (None, Fraction(50), Fraction(6667, 100))
 
 
@@ -178,6 +178,27 @@ def vtt_settings(ix: int, iw: int, ips: int, ipe: int, al: int) -> str:
     if w is not None:
         want += " size:" + _fmt(w - (ps or 0) - (pe or 0))
     return "" if got == want else "cue settings"
+
+
+def vtt_settings_fit(ix: int, iw: int, ips: int, rel: bool) -> str:
+    """
+    pre: 0 <= ix < 4 and 0 <= iw < 3 and 0 <= ips < 3
+    post: _ == ""
+    """
+    # fit_to_screen=True with relativize on or off (percent layouts need no relativization): a missing width reaches
+    # the 90% edge, a width that overflows it is cut back to it, one that fits is unchanged; then the padding arithmetic
+    P = UnitEnum.PERCENT
+    x, y, w = _pick4(ix, XS), Fraction(20), _pick3(iw, WS)
+    ps = _pick3(ips, PADS)
+
+    def sz(fr):
+        return Size(float(fr), P)
+    pad = Padding(start=sz(ps)) if ps is not None else None
+    lay = Layout(origin=Point(sz(x), sz(y)), extent=Stretch(sz(w), sz(Fraction(20))) if w is not None else None, padding=pad)
+    got = WebVTTWriter(relativize=rel, fit_to_screen=True)._convert_positioning(lay)
+    width = w if (w is not None and x + w <= 90) else 90 - x
+    want = " align:start position:" + _fmt(x + (ps or 0)) + " line:" + _fmt(y) + " size:" + _fmt(width - (ps or 0))
+    return "" if got == want else "cue settings with fit_to_screen"
 
 
 def vtt_shared_layout(level: int, ips: int, ipb: int, three: bool) -> str:
